@@ -9,6 +9,7 @@ from .common import gstr, glist, gbool, coq_eval, parse_nested, pmap
 KEYS = [
     ("name", "KStr"), ("size", "KNum"), ("ext", "KStr"), ("path", "KStr"), ("dir", "KStr"),
     ("length(name)", "KNum"), ("uid", "KNum"), ("mode", "KStr"), ("is_dir", "KStr"),
+    ("hardlinks", "KNum"), ("inode", "KNum"), ("blocks", "KNum"),
 ]
 
 COQ_HEADER = """From Coq Require Import List NArith ZArith Bool.
@@ -37,6 +38,9 @@ def order_tree(rng, big=False):
         nodes.append({"name": dn, "kind": "dir", "kids": kids})
     for n in rng.sample(names, rng.randint(0, 4)):
         nodes.append({"name": n, "kind": "file", "size": rng.choice(sizes)})
+    # link counts of one, two and more than nine digits' worth: 12 sorts after 2 as a number, before it as text
+    nodes.append({"name": "hl12", "kind": "file", "size": 70000, "hardlinks": ["hl12_%d" % i for i in range(rng.choice([9, 11]))]})
+    nodes.append({"name": "hl2", "kind": "file", "size": 4097, "hardlinks": ["hl2_1"]})
     return nodes
 
 
